@@ -427,3 +427,171 @@ def c06_threads_search(meta, seed, budget):
         k = rng.randrange(1, 6)
         yield {"comms": [lat(bytes(rng.choice(b"ab() \n\t:)(") for _ in range(rng.randrange(0, 16)))) for _ in range(k)]}
         n += 1
+
+
+# ---------------------------------------------------------------------------
+# C14
+# ---------------------------------------------------------------------------
+
+@runner("c14:flags")
+def c14_flags(model, meta):
+    from psutil import _pslinux
+    flags = int(model.get("flags", 0))
+    try:
+        res, exc = _pslinux.file_flags_to_mode(flags), None
+    except Exception as e:  # noqa: BLE001
+        res, exc = None, e
+    return {"env": {"flags": flags, "O_APPEND": os.O_APPEND}, "result": res, "exc": exc}
+
+
+@search("c14:flags")
+def c14_flags_search(meta, seed, budget):
+    for acc in range(4):
+        for extra in (0, os.O_APPEND, os.O_CREAT | os.O_TRUNC, os.O_APPEND | os.O_CLOEXEC, 0o100000, 1 << 40):
+            yield {"flags": acc | extra}
+
+
+@runner("c14:io")
+def c14_io(model, meta):
+    from psutil import _pslinux
+    pid = 4400
+    lines = model.get("io_lines")
+    if isinstance(lines, list) and lines:
+        txt = b"".join(unlat(x) for x in lines)
+    else:
+        txt = model.get("text", b"rchar: 1\nwchar: 2\nsyscr: 3\nsyscw: 4\nread_bytes: 5\nwrite_bytes: 6\n")
+        txt = unlat(txt)
+    M = {}
+    valid = 0
+    for ln in txt.splitlines():
+        s = ln.strip()
+        if s and len(s.split(b": ")) == 2:
+            k, v = s.split(b": ")
+            try:
+                M[k] = int(v)
+                valid += 1
+            except ValueError:
+                return {"env": {}, "result": None, "exc": None, "verdict": False, "note": "outside the grammar"}
+    with fake_procfs({f"{pid}/io": txt, f"{pid}/stat": build_stat(pid, b"x", stat_fields(__import__("random").Random(2)))}):
+        p = _pslinux.Process(pid)
+        try:
+            res, exc = p.io_counters(), None
+        except Exception as e:  # noqa: BLE001
+            res, exc = None, e
+    keys = [b"syscr", b"syscw", b"read_bytes", b"write_bytes", b"rchar", b"wchar"]
+    if valid == 0:
+        bad = not isinstance(exc, RuntimeError)
+    elif not all(k in M for k in keys):
+        bad = not isinstance(exc, ValueError)
+    else:
+        bad = exc is not None or tuple(res) != tuple(M[k] for k in keys)
+    return {"env": {"M": M}, "result": res, "exc": exc, "verdict": bad, "io": txt.decode("latin-1")}
+
+
+@search("c14:io")
+def c14_io_search(meta, seed, budget):
+    import random
+    rng = random.Random(seed)
+    base = [b"rchar: %d\n", b"wchar: %d\n", b"syscr: %d\n", b"syscw: %d\n", b"read_bytes: %d\n", b"write_bytes: %d\n",
+            b"cancelled_write_bytes: %d\n"]
+    junk = [b"\n", b"   \n", b"garbage\n", b"a: b: c\n", b"\t\n", b"nocolon 5\n", b": \n"]
+    for n in range(budget):
+        lines = [b % rng.randrange(0, 2 ** 64) for b in base]
+        if n % 5 == 1:
+            lines.pop(rng.randrange(len(lines)))
+        for _ in range(rng.randrange(0, 4)):
+            lines.insert(rng.randrange(len(lines) + 1), rng.choice(junk))
+        if n % 17 == 3:
+            lines = [rng.choice(junk[:5]) for _ in range(rng.randrange(0, 3))]
+        yield {"text": lat(b"".join(lines))}
+
+
+def expected_mode(flags):
+    acc = flags & 3
+    app = bool(flags & os.O_APPEND)
+    return {0: "r", 1: "a" if app else "w", 2: "a+" if app else "r+"}.get(acc)
+
+
+@runner("c14:open_files")
+def c14_open_files(model, meta):
+    """a generated descriptor table under a fake procfs; oracle = independent reading of the same table"""
+    from psutil import _pslinux
+    import psutil
+    pid = 4500
+    entries = model["fds"]       # [(fd, kind, flags, pos)]
+    d = tempfile.mkdtemp(prefix="vfproc_")
+    want = []
+    try:
+        os.makedirs(f"{d}/{pid}/fd")
+        os.makedirs(f"{d}/{pid}/fdinfo")
+        os.makedirs(f"{d}/files")
+        with open(f"{d}/{pid}/stat", "wb") as f:
+            f.write(build_stat(pid, b"x", stat_fields(__import__("random").Random(3))))
+        with open(f"{d}/stat", "wb") as f:
+            f.write(b"cpu  1 2 3 4 5 6 7 8 9 10\nbtime 1700000000\n")
+        for fd, kind, flags, pos in entries:
+            if kind == "file":
+                tgt = f"{d}/files/f{fd}"
+                open(tgt, "w").close()
+            elif kind == "deleted_gone":
+                tgt = f"{d}/files/gone{fd} (deleted)"
+            elif kind == "deleted_exists":
+                tgt = f"{d}/files/odd{fd} (deleted)"
+                open(tgt, "w").close()
+            elif kind == "socket":
+                tgt = f"socket:[{1000 + fd}]"
+            elif kind == "pipe":
+                tgt = f"pipe:[{2000 + fd}]"
+            elif kind == "device":
+                tgt = "/dev/null"
+            elif kind == "relative":
+                tgt = f"rel/path{fd}"
+            elif kind == "dir":
+                tgt = f"{d}/files"
+            elif kind == "nofdinfo":
+                tgt = f"{d}/files/n{fd}"
+                open(tgt, "w").close()
+            os.symlink(tgt, f"{d}/{pid}/fd/{fd}")
+            if kind != "nofdinfo":
+                with open(f"{d}/{pid}/fdinfo/{fd}", "w") as f:
+                    f.write(f"pos:\t{pos}\nflags:\t0{flags:o}\nmnt_id:\t25\n")
+            if kind in ("file", "deleted_exists"):
+                want.append((tgt, fd, pos, expected_mode(flags), flags))
+        old = psutil.PROCFS_PATH
+        psutil.PROCFS_PATH = d
+        try:
+            p = _pslinux.Process(pid)
+            try:
+                res, exc = p.open_files(), None
+            except Exception as e:  # noqa: BLE001
+                res, exc = None, e
+        finally:
+            psutil.PROCFS_PATH = old
+    finally:
+        shutil.rmtree(d, ignore_errors=True)
+    got = sorted(tuple(x) for x in res) if res is not None else None
+    bad = exc is not None or got != sorted(want) or any(w[3] is None for w in want) and False
+    if exc is None and got is not None:
+        # access mode 3 has no documented mode string: only require that the call succeeds with one of the five
+        want2 = sorted((w[0], w[1], w[2], w[3] if w[3] else g[3], w[4]) for w, g in zip(sorted(want), got)) \
+            if len(got) == len(want) else sorted(want)
+        bad = got != want2 or any(g[3] not in ("r", "w", "a", "r+", "a+") for g in got)
+    return {"env": {}, "result": got, "exc": exc, "verdict": bad, "expected": sorted(want), "fds": entries}
+
+
+@search("c14:open_files")
+def c14_open_files_search(meta, seed, budget):
+    import random
+    rng = random.Random(seed)
+    kinds = ["file", "deleted_gone", "deleted_exists", "socket", "pipe", "device", "relative", "dir", "nofdinfo"]
+    extras = [0, os.O_APPEND, os.O_CREAT | os.O_TRUNC, os.O_CLOEXEC, os.O_APPEND | os.O_CLOEXEC | 0o100000]
+    n = 0
+    for acc in range(4):
+        for ex in extras:
+            yield {"fds": [(3, "file", acc | ex, 0)]}
+            n += 1
+    while n < budget:
+        k = rng.randrange(0, 7)
+        yield {"fds": [(3 + i, rng.choice(kinds), rng.randrange(4) | rng.choice(extras), rng.choice([0, 1, 2 ** 40, 2 ** 63 - 1]))
+                       for i in range(k)]}
+        n += 1
